@@ -859,6 +859,79 @@ def eval_declarations_kept(ctx, R):
     return decided > 0
 
 
+def eval_tuple_assignment(ctx, R):
+    """`(t1, .., tn) op (e1, .., em)` through remove_tuples_from_statement (the expression remover replaced by the
+    identity): for n = m the result is the block of `ti op ei` in order, without the positions whose target is `_`
+    (their values are consumed all the same); for n != m an error."""
+    import passeval
+    from finfun import NONE, S, Unsupported
+    from passeval import O, Sink, V
+
+    try:
+        w = passeval.PassWorld([AST, "program_structure/src/abstract_syntax_tree/expression_impl.rs", "program_structure/src/abstract_syntax_tree/statement_impl.rs", SST, SSR], SSR)
+    except Exception:
+        return False
+    w.lenient_opaque = True
+    fn = w.free.get("remove_tuples_from_statement")
+    if fn is None:
+        return False
+    ix = 0
+    for j, i in enumerate(w.free["remove_tuple_from_expression"]["sig"]["inputs"]) if "remove_tuple_from_expression" in w.free else []:
+        if i["ty"].replace(" ", "") == "Expression":
+            ix = j
+    w.stubs = {"remove_tuple_from_expression": lambda args: S("Ok", args[ix])}
+    bad = None
+    n = 0
+    try:
+        for targets, nvals in ((["x", "_", "y"], 3), (["_", "x"], 2), (["x"], 1), (["x", "y"], 3), (["x", "y", "z"], 2)):
+            tv = Sink()
+            tv.items = [V("Expression", "Variable", meta=O("meta-of-%s#%d" % (t, k)), name=t, access=("L", ())) for k, t in enumerate(targets)]
+            vals = [O("value%d" % k) for k in range(nvals)]
+            vv = Sink()
+            vv.items = list(vals)
+            op = O("op")
+            stmt = V("Statement", "MultiSubstitution", meta=O("stmt-meta"), lhe=V("Expression", "Tuple", meta=O("lhe-meta"), values=tv), op=op, rhe=V("Expression", "Tuple", meta=O("rhe-meta"), values=vv))
+            res = w.call_fn(fn, [stmt])
+            n += 1
+            is_err = isinstance(res, tuple) and len(res) > 2 and res[1] == "Err"
+            if len(targets) != nvals:
+                if not is_err:
+                    bad = bad or "%d targets, %d values: accepted" % (len(targets), nvals)
+                continue
+            subs = [x for x in _objs_k(res) if x[1] == "build_substitution"]
+            got = [(x[2][1], x[2][4]) for x in subs if len(x[2]) >= 5]
+            want = [(t, vals[k]) for k, t in enumerate(targets) if t != "_"]
+            if is_err or len(got) != len(want) or any(a[0] != b[0] or a[1] is not b[1] for a, b in zip(got, want)):
+                bad = bad or "targets %s: produces %s, expected %s" % (targets, [(a, b[1] if isinstance(b, tuple) else b) for a, b in got], [(a, b[1]) for a, b in want])
+    except (Unsupported, passeval.Panic) as u:
+        ctx.note("remove_tuples_from_statement/MultiSubstitution is outside the evaluator's subset (%s): shape obligations apply" % u)
+        return False
+    finally:
+        w.stubs = {}
+    ctx.check(R, "tuples/element-wise-in-order", bad is None and n == 5, bad or "ti op ei in order; `_` targets consume their value and produce nothing; unequal lengths are an error", SSR)
+    return True
+
+
+def _objs_k(x, depth=0):
+    """opaque call results (K) inside a value, in order"""
+    from passeval import Sink
+
+    if depth > 8:
+        return
+    if isinstance(x, Sink):
+        for y in x.items:
+            yield from _objs_k(y, depth + 1)
+    elif isinstance(x, tuple):
+        if x and x[0] == "K":
+            yield x
+        for y in x:
+            if isinstance(y, (tuple, list, dict, Sink)):
+                yield from _objs_k(y, depth + 1)
+    elif isinstance(x, dict):
+        for y in x.values():
+            yield from _objs_k(y, depth + 1)
+
+
 def rule_binding(ctx):
     R = "C18.4"
     ctx.rule(R, "anonymous-component inputs and outputs are bound in declaration order (never the sorted name maps); a named input takes the operator written next to its own name; the arity is checked; `_` targets consume their value; the grammar keeps every input name")
@@ -986,6 +1059,8 @@ def rule_binding(ctx):
     ctx.check(R, "anonymous/unknown-template-rejected", okt, "", site(SSR, fn))
     # tuple assignment: element-wise, in order, `_` consumes
     rt = find_fn(SSR, "remove_tuples_from_statement")
+    if rt is not None and eval_tuple_assignment(ctx, R):
+        rt = None
     if rt is not None:
         rb = rt["body"]
         lr = sgrep.find(rb, "__lv.remove(0)")
